@@ -34,6 +34,10 @@ func (p c05) Run(c *core.Ctx) {
 		p.mixin(c)
 		return
 	}
+	if c.Index%25 == 12 {
+		p.unsettable(c)
+		return
+	}
 	if c.Index%5 == 4 {
 		p.retry(c)
 		return
@@ -574,4 +578,38 @@ func (p c05) mixin(c *core.Ctx) {
 		return
 	}
 	c.Nontrivial("mixin|" + g.Sc.GraphSig())
+}
+
+// unsettable: a component with several injection points one of which - not the last - cannot be set (its
+// only candidate is the component itself): it never reaches its initialization callbacks with that
+// point empty, whatever happens to the points after it.
+func (p c05) unsettable(c *core.Ctx) {
+	g := world.NewG(c.Rng)
+	h := g.AddNode([]int{0, 1, 3, 6}[c.Rng.Intn(4)], g.FreshName(0)) // eager, Init and/or AfterPropertiesSet, the only IA
+	other := g.AddNode([]int{2, 13}[c.Rng.Intn(2)], g.FreshName(1))    // an IB, not an IA
+	g.SetTag(h, []string{"IA0", "IA1"}[c.Rng.Intn(2)], "wire", "")      // by type: only the holder itself fits
+	// later points (field order) that can be set
+	g.SetTag(h, "IB0", "wire", g.Sc.Nodes[other].DisplayName())
+	if c.Rng.Intn(2) == 0 {
+		g.SetTag(h, "Any0", "wire", g.Sc.Nodes[other].DisplayName())
+	}
+	if c.Rng.Intn(2) == 0 {
+		g.SetTag(h, "AnyS", "wire", ",required=false")
+	}
+	g.ShuffleOrders()
+	r := world.Start(g.Sc, world.Options{})
+	c.Count("starts", 1)
+	c.Count("unsettable_starts", 1)
+	hn := g.Sc.Nodes[h].DisplayName()
+	inits := countEvents(r, "init", hn) + countEvents(r, "aps", hn)
+	if abnormal(r.Outcome()) {
+		c.Fail("", "start: "+core.Short(r.OutcomeDetail(), 300), failDetail(g.Sc, r, nil))
+		return
+	}
+	if inits > 0 || r.Outcome() == "ok" {
+		c.Fail("", fmt.Sprintf("component %q reached its initialization callbacks (%d) / the start returned %s although its required by-type point can only be satisfied by the component itself and is empty", hn, inits, r.Outcome()),
+			failDetail(g.Sc, r, map[string]any{"events": renderEvents(r.Log.Events(), 60)}))
+		return
+	}
+	c.Nontrivial("unsettable|" + g.Sc.GraphSig())
 }
